@@ -10,7 +10,8 @@ RULE = ('random torch module trees (depth ≤ 4; Sequential/ModuleList/ModuleDic
         'leaves with and without parameters, partially/fully frozen and tied parameters) and random regex skip '
         'lists; real KFACPreconditioner (and the GPT-NeoX register_modules) vs the Lean walk+filter model '
         'with re.search supplied as a truth table; hooks counted on every module; non-trivial = ≥2 eligible '
-        'candidates and ≥1 pattern or shared/frozen module')
+        'candidates and ≥1 pattern or shared/frozen module'
+        '; siblings whose names extend each other, names containing wrapper prefixes, patterns with inline global flags / capturing groups / anchors')
 TRUSTED = [
     'Lean 4.33 kernel; axioms audited ⊆ {propext, Classical.choice, Quot.sound}',
     'hand-written model KV.Reg tied to kfac/layers/register.py and kfac/gpt_neox/preconditioner.py:register_modules',
